@@ -164,13 +164,35 @@ def jobs_for(ctx, props, n_generated, shipped_events, slow_events, gen_events, f
                      "potential": "inverse_power", "power": 12, "prefactor": 0.1, "initial_active": 8})]):
             jobs.append({"spec": {"kind": "spheres", "family": "soft_dense", "params": p}, "props": list(props), "seed": sd,
                          "max_events": gen_events or 1500, "label": f"gen-soft_dense-directed-{k}"})
+        # the same code with DEBUG logging switched on (`-vv`): the logging branches consume the same objects the run uses
+        for k, name in enumerate(["dipoles/dipole_motion", "coulomb_atoms/cell_veto", "water/coulomb_power_bounded_lj_inverted",
+                                  "hard_disk_dipoles/hard_disk_dipoles_cells"]):
+            jobs.append({"spec": {"kind": "shipped", "name": name, "end": 1e6, "debug_logging": True}, "props": list(props),
+                         "seed": ctx.seed * 1000 + 950 + k, "max_events": max(200, shipped_events // 4),
+                         "label": name + "(debug logging)"})
+        # shipped configurations under the multi-process mediator
+        for k, (name, cores) in enumerate([("dipoles/dipole_motion", 4), ("coulomb_atoms/cell_bounded", 3),
+                                           ("water/coulomb_power_bounded_lj_inverted", 8)]):
+            jobs.append({"spec": {"kind": "shipped", "name": name, "end": 1e6, "multi_process_cores": cores},
+                         "props": list(props), "seed": ctx.seed * 1000 + 970 + k, "max_events": max(200, shipped_events // 4),
+                         "label": name + f"(multi-process, {cores} cores)"})
     rng = core.rng_for(ctx.prop, ctx.seed, "gen")
     families = families or DEFAULT_FAMILIES
     for i in range(n_generated):
         fam = families[i % len(families)] if families else None
         spec = gen_molecule_spec(rng) if fam == "molecules" else gen_spec(rng, fam)
+        label = f"gen-{spec['family']}-{i}"
+        if spec["kind"] == "spheres" and i % 7 == 5 and not (spec["params"].get("cells") or {}).get("veto"):
+            # the same monitors around the multi-process mediator (handlers in worker processes; the probe bus observes the
+            # mediator's collaborators in the parent). Not with cell-veto handlers: their target cell crosses the pipe by value
+            # and is then not a key of the parent's occupancy dictionary (KeyError at the first cell-veto commit; reproduced
+            # with the shipped cell_veto.ini through jellyfysh.run; outside every property's quantifier, see DESIGN 9.3).
+            # mediator's four collaborators in the parent, in-states where the mediator extracts them)
+            spec["params"]["mediator"] = "multi_process_mediator"
+            spec["params"]["cores"] = rng.choice([2, 3, 4, 8])
+            label = f"gen-{spec['family']}-mp-{i}"
         jobs.append({"spec": spec, "props": list(props), "seed": ctx.seed * 1000 + i, "max_events": gen_events,
-                     "label": f"gen-{spec['family']}-{i}"})
+                     "label": label})
     return jobs
 
 
